@@ -47,3 +47,7 @@ func HavocUsed(fn string) bool
 
 // UF32 is an uninterpreted 32-bit function of a byte string.
 func UF32(name string, data []byte) uint32
+
+// StubCRC(true) replaces gots.ComputeCRC by the uninterpreted function UF32("crc", input) (big-endian bytes)
+// for the rest of the harness; that ComputeCRC is CRC-32/MPEG-2 is property C13.
+func StubCRC(on bool)
